@@ -214,6 +214,7 @@ type ledger struct {
 	ops    []opRec
 	byPtr  map[value.Value]int // object → index in cur of the first entry holding it
 	quiet  bool                // node(): do not enter (used while the ledger itself re-encodes)
+	cases  int
 	noRing bool
 }
 
@@ -343,8 +344,9 @@ func (l *ledger) report(e *live, shape string, callf func() string, what string,
 }
 
 // verify looks at every live value of the case again. shape names the kind of call that was
-// made since the last look; call describes it for the witness.
-func (l *ledger) verify(shape string, call func() string) {
+// made since the last look; call describes it for the witness. full: compare the encodings too
+// (otherwise the fingerprints, and the encoding only where the fingerprint moved).
+func (l *ledger) verify(shape string, full bool, call func() string) {
 	if l == nil {
 		return
 	}
@@ -358,7 +360,7 @@ func (l *ledger) verify(shape string, call func() string) {
 			if e.leaf != (pass == 0) {
 				continue
 			}
-			what, det := e.changed(shape == shAfterCmp)
+			what, det := e.changed(full)
 			if what == "" {
 				continue
 			}
@@ -384,9 +386,11 @@ func (l *ledger) end(r *vlib.Rand) {
 	c := l.m.c
 	l.quiet = true
 	defer func() { l.quiet = false }()
+	l.cases++
 	for i := range l.ring {
 		e := &l.ring[i]
-		if what, det := e.changed(true); what != "" {
+		// fingerprints every case, the encodings every eighth (and wherever a fingerprint moved)
+		if what, det := e.changed(l.cases%8 == 0); what != "" {
 			l.report(e, shOlder, func() string { return "the calls of case " + l.caseID }, what, det)
 		}
 	}
@@ -452,7 +456,7 @@ func decodeWatched(s *spec, wire []byte) (d value.Value, p interface{}) {
 	}
 	led.op("decode", s)
 	// first the older values, then the new one (its own creation is not a change)
-	led.verify(shAfterDecode, func() string { return "ReadValue of the encoding of " + renderShort(s) })
+	led.verify(shAfterDecode, false, func() string { return "ReadValue of the encoding of " + renderShort(s) })
 	if p == nil && d != nil {
 		led.enterTree(asDecoded(s), d, "decoded")
 	}
@@ -818,4 +822,9 @@ func (m *mon) sameResults(x []item, before, after resMatrix, shape string) {
 					"a_wire_hex_now": hexOf(x[i].v), "b_wire_hex_now": hexOf(x[j].v), "history": led.opLog()})
 		}
 	}
+}
+
+// compared: the ledger's look after a run of Equals / CompareTo calls.
+func compared() {
+	led.verify(shAfterCmp, false, func() string { return "Equals / CompareTo calls on values of the case" })
 }
